@@ -338,7 +338,9 @@ theorem tfrStep_emits_t {σ : Type} (I : Iface σ) (own : TfrOwn) (inner : σ) (
     absOf (tfrStep I own inner c).1 = optNext (absOf own) (tev c) := by
   cases c with
   | add k t a =>
-    refine ⟨⟨tfrBlock own k t a, rfl, ?_⟩, rfl⟩
+    refine ⟨⟨tfrBlock own k t a ++ tfrStops own k, rfl, ?_⟩, rfl⟩
+    have hst : tevs (tfrStops own k) = [] := by unfold tfrStops; split <;> rfl
+    rw [tevs_append, hst, List.append_nil]
     simp only [tfrBlock, tevs_append, tevs_tagsIf, optEmit, tev, tfrEmitT, absOf]
     simp [tevs, tev, List.filterMap_cons]
   | startTestRun => exact ⟨⟨[.startTestRun], rfl, rfl⟩, rfl⟩
